@@ -425,7 +425,7 @@ func runC16() {
 			}
 		}
 		// nested values whose strings hold characters that a JSON re-encoder may or may not escape
-		for _, txt := range []string{"<a&b>", "\u2028x", "q\"\\", "é\x7f", "sp ace"} {
+		for _, txt := range []string{"<a&b>", "\u2028x", "q\"\\", "é\x7f", "sp ace", "100%d %s%%", "%!v(MISSING)"} {
 			nested := []seqx.Field{
 				{M: "Strs", Key: "k0", Val: []string{txt, "v"}},
 				{M: "Dict", Key: "k0", Sub: []seqx.Field{{M: "Str", Key: txt, Val: txt}}},
